@@ -8,7 +8,9 @@ ID = 'C17'
 LEVEL = 'proof'
 THEOREMS = [('DebInspector.Thm.C17', ['Props.C17.roundtrip', 'Props.C17.known_ending', 'Props.C17.accepted_fromString',
                                       'Props.C17.sortA_perm', 'Props.C17.last_is_max', 'Props.C17.insertA_sorted',
-                                      'Props.C17.soundB', 'Props.C17.known_decomp', 'Props.C17.stem_of', 'Props.C17.endings_apart'])]
+                                      'Props.C17.soundB', 'Props.C17.known_decomp', 'Props.C17.stem_of', 'Props.C17.endings_apart']),
+            ('DebInspector.Thm.C17C', ['Props.C17C.soundC', 'Props.C17C.parseBinary_archive', 'Props.C17C.sortA_sorted2', 'Props.C17C.groupRuns_runs',
+                                       'Props.C17C.sortA_some', 'Props.C17C.strLt_trans', 'Props.C17C.strLt_total'])]
 TRUSTED = [
     'Lean 4.33.0 kernel',
     'reading of the property as Props.C17.holdsOnA/B/C (spec-side file-name grammar written from the sentence, independent of the code tables)',
@@ -24,11 +26,16 @@ RULE = ('C17a: all endings x names with dots/plus x accepted versions (epochs, h
         'C17c: lists of 1-6 binary names with order-equal versions and epochs, all permutations for length <= 4. '
         'non-trivial = accepted file name / list with >= 2 distinct versions')
 TECHNIQUE = ('Lean 4 theorems: rejection of every name the property says must be rejected (soundB); file-name round trip for every (directory, name, accepted version, architecture, ending) (roundtrip; the suffix tuples of get_nva are regenerated and re-checked by decide per ending); '
-             'selection: insertion sort is a permutation, last element is a maximum + executable spec on every implementation observation + correspondence with the hand model of get_nva')
+             'selection for every list of binary package file names (soundC): the names parse to the archives they spell, sorting never raises, the sorted list is ordered by name then version, '
+             'the runs of equal names are the groups, each result is a maximum of its name, mixed names raise ValueError + executable spec on every implementation observation + correspondence with the hand model')
 LEVEL_TEXT = ('Props.C17.roundtrip: for every directory prefix, package name without underscore or slash, version that C03 says must be accepted (any epoch, hyphenated upstream, tildes, dots - including ".tar." inside the version), '
               'architecture (binary packages) and each of the thirteen endings, the model of DebArchive.from_filename returns exactly that name, dpkg\'s decomposition of that version, that architecture and the original path '
               '(known_ending: each ending is recognised and peeled off exactly - last dot, last underscore, last ".tar." then ".orig"/".debian" - proved per ending by decide against the regenerated tuples of get_nva; accepted_fromString from the C03 theorems). '
-              'Selection: the model sort is a permutation of its input and, under the tuple order, the last element of the sorted list is a maximum of the version order for every list of archives of one name (last_is_max). '
+              'Selection - Props.C17C.soundC: for every list of binary package file names whose parsed archives are in the model (no two versions of one name that are different but order-equal, where the exact output of '
+              'Python\'s sort is not modelled), find_latest_version returns one of the inputs that no input of its name exceeds under dpkg order, or raises ValueError when names are mixed, and find_latest_versions maps '
+              'exactly the names present, each once, each to such a maximum (parseBinary_archive: a name the specification reads as binary parses to that archive, via roundtrip; sortA_some: tuple comparison never raises on '
+              'binary packages; sortA_sorted2: the sorted list is ordered by name, then version - strLt is a strict total order; groupRuns_runs: the runs of equal names partition it, keys strictly increasing; '
+              'last_is_max). Lists with order-equal different versions are decided by the executable specification on the implementation\'s observations. '
               'Props.C17.soundB: every file name with no recognised extension or suffix, with a stem that is not two or three underscore-separated parts, or whose version part is not a valid version raises ValueError '
               '(known_decomp: whenever get_nva recognises a base name with an underscore, the name is that stem plus exactly one of the thirteen endings - the last dot, the last underscore, the last ".tar." being the ones of the ending; '
               'stem_of / endings_apart: no ending is a suffix of another, so the specification reads the same stem; an accepted version part is valid by the C03 theorems). '
